@@ -170,6 +170,17 @@ def run(ctx):
         calls = [x for x in subterms(t) if destruct(x)[0] == "self._render_part"]
         pair_ok = all(len(destruct(c)[1]) == 2 and destruct(c)[1][0].replace("each0", "E").replace("idx(", "E(") != destruct(c)[1][1] for c in calls)
         n_rendered += len(calls)
+        for c in calls:
+            val = destruct(c)[1][1] if len(destruct(c)[1]) == 2 else None
+            not_none = r.is_none(val) is False if val else None
+            if not_none is not True and val:
+                # rendered inside a comprehension: its filter must exclude None
+                for g_ in subterms(t):
+                    gop, gargs = destruct(g_)
+                    if gop in ("gen", "listcomp") and c in list(subterms(gargs[0])) and T("cmp:isnot", val, "None") in gargs[2:]:
+                        not_none = True
+            ctx.ob(R1, rp.qual, "a part is rendered only when its value is not None", not_none is True,
+                   "" if not_none is True else "a missing value (e.g. no filename) is rendered as a parameter: the part carries a Content-Disposition the field does not specify", witness=r.witness(), node=rp.node)
         ctx.ob(R1, rp.qual, f"header parts reach the result only as self._render_part(name, value): {t[:90]}", ok and pair_ok,
                "" if ok and pair_ok else "a header part is assembled without the formatter", witness=r.witness(), node=rp.node)
     ctx.sites(R1, n_rendered, 1, "self._render_part(...) terms in the result of _render_parts")
@@ -202,7 +213,16 @@ def run(ctx):
         if op == "cat" and len(args) >= 2 and args[-1] in (want_rp, want_rp.replace("tuple(tuple", "list(tuple", 1)):
             sep_c = destruct(args[-2])
             ok = sep_c[0] == "const" and isinstance(sep_c[1], str) and sep_c[1].endswith("; ") and (len(args) == 2 or "p:content_disposition" in args[0])
-        ctx.ob(R1, mm.qual, f"Content-Disposition = <type>; _render_parts((name, filename)): {v[:100]}", bool(ok), "" if ok else "the header is not the disposition type followed by `; ` and the rendered (name, filename) pairs", witness=r.witness(), node=mm.node)
+        cd_truth = r.truth("p:content_disposition")
+        first = args[0] if op == "cat" and args else ""
+        fc = destruct(first)
+        if cd_truth is True:
+            ok = ok and first == "p:content_disposition"
+        elif cd_truth is False:
+            ok = ok and fc[0] == "const" and isinstance(fc[1], str) and fc[1].startswith("form-data")
+        else:
+            ok = False
+        ctx.ob(R1, mm.qual, f"Content-Disposition = <given type or form-data>; _render_parts((name, filename)): {v[:100]}", bool(ok), "" if ok else "the header is not the disposition type followed by `; ` and the rendered (name, filename) pairs", witness=r.witness(), node=mm.node)
 
     # ---------------- R2 (path-sensitive: the value reaches the result escaped on EVERY path)
     _run_r2(ctx, R2)
@@ -298,12 +318,53 @@ def run(ctx):
     rh = m.method(RF, "render_headers")
     rows = [r for r in effect_rows(ctx, rh, GenRule(ctx, FL, inline=helpers), RF) if r.returns]
     ok = bool(rows)
+    n_lines = 0
+    seen = set()
     for r in rows:
         op, args = destruct(r.ret)
         lst = args[1] if op == "join" and len(args) == 2 else ""
         lop, largs = destruct(lst)
         ok = ok and op == "join" and args[0] == K("\r\n") and lop == "list" and largs and largs[-1] == K("\r\n")
+        if not (lop == "list" and largs):
+            continue
+        # every emitted line is `<name>: <value>` of ONE header entry, emitted exactly when the value is set (truthy);
+        # the three leading headers come first, then every other header
+        reps = [destruct(x)[1] for x in largs[:-1]]
+        sig = (tuple(largs), tuple(sorted((k, v) for k, v in r.st.facts.items() if "self.headers" in k)),
+               tuple(sorted((str(k), v) for k, v in r.st.ts.items() if isinstance(k, tuple) and k[0] == "cmp")))
+        if sig in seen:
+            continue
+        seen.add(sig)
+        items_I = T("items", "self.headers")
+        for x in largs[:-1]:
+            xop, xargs = destruct(x)
+            if xop != "rep" or len(xargs) != 2:
+                ctx.ob(R3, rh.qual, f"header line {x[:70]} is produced per header entry", False, "a line is written outside the loops over the headers", witness=r.witness(), node=rh.node)
+                continue
+            n_lines += 1
+            line, loop = norm(xargs[0]), xargs[1]
+            lop2, lparts = destruct(line)
+            shape = lop2 == "cat" and len(lparts) == 3 and lparts[1] == K(": ")
+            if loop == items_I:
+                pair = shape and lparts[0] == T("each0", loop) and lparts[2] == T("each1", loop)
+                lead = [k for k in r.st.ts if isinstance(k, tuple) and k[0] == "cmp" and k[1] == T("each0", loop) and k[2] == "in"]
+                guard = bool(lead) and all(r.st.ts[k] is False for k in lead) and r.truth(T("each1", loop)) is True
+            else:
+                pair = shape and lparts[0] == T("each", loop) and lparts[2] in (T("idx", "self.headers", T("each", loop)), T("get", "self.headers", T("each", loop)), T("get", "self.headers", T("each", loop), "False"))
+                names = destruct(loop)[1] if destruct(loop)[0] in ("list", "tuple") else ()
+                if destruct(loop)[0] == "const" and isinstance(destruct(loop)[1], (tuple, list)):
+                    names = tuple(K(x_) for x_ in destruct(loop)[1])
+                pair = pair and tuple(names[:3]) == (K("Content-Disposition"), K("Content-Type"), K("Content-Location"))
+                gs = [k for k, v in r.st.facts.items() if "self.headers" in k and T("each", loop) in k]
+                guard = bool(gs) and all(r.truth(k) is True for k in gs)
+            ctx.ob(R3, rh.qual, f"line `{line[:80]}` is `name: value` of one header, emitted only when that header is set", bool(pair and guard),
+                   "" if pair and guard else "a header line does not pair a name with its own value, or is emitted for an unset / already emitted header", witness=r.witness(), node=rh.node)
+        # completeness: a loop that ran with its guard satisfied must have emitted its line
+        emitted_loops = {destruct(x)[1][1] for x in largs[:-1] if destruct(x)[0] == "rep" and len(destruct(x)[1]) == 2}
+        if r.truth(T("each1", items_I)) is True and any(isinstance(k, tuple) and k[0] == "cmp" and k[1] == T("each0", items_I) and k[2] == "in" and v is False for k, v in r.st.ts.items()):
+            ctx.ob(R3, rh.qual, "a set header outside the leading three is emitted", items_I in emitted_loops, "a header the field specifies is dropped from the part", witness=r.witness(), node=rh.node)
     ctx.ob(R3, rh.qual, "header block is the lines joined by CRLF and ends with an empty line", ok, "; ".join(r.ret[-80:] for r in rows[:2]))
+    ctx.sites(R3, n_lines, 2, "header lines emitted by render_headers")
     cb = m.func(f"{FP}.choose_boundary")
     txt = astq.text(cb.node)
     ok = "os.urandom(16)" in txt and "hexlify" in txt
